@@ -3,7 +3,8 @@ Class for managing custom score objects (e.g., "+20%").
 """
 import re
 
-SCORE_PATTERN = re.compile(r"(!*)([+\-/*])?([\d.]+)(%)?(.*)")
+# The number may be in exponent notation: that is how Python renders small and large floats (1e-05)
+SCORE_PATTERN = re.compile(r"(!*)([+\-/*])?([\d.]+(?:[eE][+\-]?\d+)?)(%)?(.*)")
 
 class Score:
     def __init__(self, invert, operator, value, percentage, leftovers):
